@@ -45,6 +45,9 @@ def setup_paths() -> None:
     sys.path.insert(0, src)
     if ROOT not in sys.path:
         sys.path.insert(1, ROOT)
+    fixtures = os.path.join(ROOT, "fixtures")  # fixture module + *.dist-info with asphalt.components entry points
+    if fixtures not in sys.path:
+        sys.path.insert(2, fixtures)
     if DEPS not in sys.path:
         sys.path.append(DEPS)
 
